@@ -1614,12 +1614,16 @@ parse_citation:
 
 						if (temp_short2 == scratch->used_citations->size) {
 							// This is a re-use of a previously used note
-							printf("<a href=\"#cn:%d\" title=\"%s\" class=\"citation\">(%s, %d)</a>",
-								   temp_short, LC("see citation"), temp_char, temp_short);
+							printf("<a href=\"#cn:%d\" title=\"%s\" class=\"citation\">(",
+								   temp_short, LC("see citation"));
+							mmd_print_string_html(out, temp_char, false, false);
+							printf(", %d)</a>", temp_short);
 						} else {
 							// This is the first time this note was used
-							printf("<a href=\"#cn:%d\" id=\"cnref:%d\" title=\"%s\" class=\"citation\">(%s, %d)</a>",
-								   temp_short, temp_short, LC("see citation"), temp_char, temp_short);
+							printf("<a href=\"#cn:%d\" id=\"cnref:%d\" title=\"%s\" class=\"citation\">(",
+								   temp_short, temp_short, LC("see citation"));
+							mmd_print_string_html(out, temp_char, false, false);
+							printf(", %d)</a>", temp_short);
 						}
 					}
 				} else {
